@@ -34,8 +34,28 @@ def digestIs (f : Nat → Nat → Bool) (clo chi vlo vhi : Nat) : UInt64 × Nat 
       else h := fnvMix h 0
   return (h, n)
 
+/-- `<id>:<hex>,<id>:<hex>,…` (`-` for an empty value) -/
+def parseOpts (s : String) : Option (List (Nat × List UInt8)) :=
+  (s.splitOn ",").mapM (fun e =>
+    match e.splitOn ":" with
+    | [i, hx] => do
+      let i ← i.toNat?
+      let bs ← parseHex? hx
+      some (i, bs)
+    | _ => none)
+
 def model (line : String) : String :=
   match words line with
+  | ["rwl", c, os] =>
+    match c.toNat?, parseOpts os with
+    | some c, some opts =>
+      let v := Model.NoResponse.noResponseValue (Model.NoResponse.noRespOption opts)
+      if Model.NoResponse.setResponseAccepted v c then s!"accepted true {c}" else "refused false"
+    | _, _ => "bad-op"
+  | ["srv", tr, rt, v, c, _extra] =>
+    match parseTr tr, parseRt rt, parseOptNat v, c.toNat? with
+    | some tr, some rt, some v, some c => fmtServe (Model.NoResponse.serve tr rt v c)
+    | _, _, _, _ => "bad-op"
   | ["is", c, v] =>
     match c.toNat?, v.toNat? with
     | some c, some v => if Model.NoResponse.isNoResponse c v then "refused" else "accepted"
@@ -79,6 +99,26 @@ def judgeLine (line : String) : String :=
           let (acc, w) := expected tr rt v c
           s!"violates expected set={if acc then "accepted" else "refused"} wire={repr w}"
       | _, _, _, _, _ => "violates unparsable-observation"
+    | ["srv", tr, rt, v, c, _extra], "set" :: set :: "sent" :: _n :: rest =>
+      match parseTr tr, parseRt rt, parseOptNat v, c.toNat?, parseSent rest with
+      | some tr, some rt, some v, some c, some sent =>
+        if set != "accepted" && set != "refused" then "violates handler-not-run"
+        else if judge tr rt v c (set == "accepted", sent) then "ok"
+        else
+          let (acc, w) := expected tr rt v c
+          s!"violates expected set={if acc then "accepted" else "refused"} wire={repr w} (other request options must not matter)"
+      | _, _, _, _, _ => "violates unparsable-observation"
+    | ["rwl", c, os], o :: _ =>
+      match c.toNat?, parseOpts os with
+      | some c, some opts =>
+        -- specification: the request's No-Response value is that of its option 258, whatever else it carries
+        let exp := match opts.filter (fun o => o.1 == 258) with
+          | [] => "accepted"
+          | (_, bs) :: _ =>
+            let v := (bs.take 4).foldl (fun acc b => acc * 256 + b.toNat) 0
+            if suppressed c v then "refused" else "accepted"
+        if o == exp then "ok" else s!"violates expected {exp} (other request options must not matter)"
+      | _, _ => "bad-op"
     | ["rw", hx, c], o :: _ =>
       match parseHex? hx, c.toNat? with
       | some bs, some c =>
